@@ -86,6 +86,8 @@ pub struct Violation {
 pub struct Outcome {
     pub evals: u64,
     pub violation: Option<Violation>,
+    /// every distinct violation signature seen in this case (the first one is `violation`)
+    pub all_signatures: Vec<String>,
     pub known: Vec<String>,
     pub excluded: Vec<(String, u32)>,
     pub nontrivial: Option<u64>,
@@ -102,6 +104,9 @@ impl Outcome {
         self.labels.push(l.into());
     }
     pub fn violate(&mut self, signature: &str, what: impl Into<String>, detail: Value) {
+        if !self.all_signatures.iter().any(|s| s == signature) {
+            self.all_signatures.push(signature.to_string());
+        }
         if self.violation.is_none() {
             self.violation = Some(Violation { signature: signature.to_string(), what: what.into(), detail });
         }
@@ -484,7 +489,7 @@ pub fn run_check(check: Arc<dyn Check>, tier: Tier, seed: u64) -> i32 {
                 return 2;
             }
             match (&out.violation, k.status.as_str()) {
-                (Some(v), "open") if v.signature == k.matcher => {
+                (Some(_), "open") if out.all_signatures.iter().any(|s| *s == k.matcher) => {
                     println!("KNOWN-FINDING: property={} {} [{}]", id, k.what, k.id);
                     witness_notes.push(json!({"finding": k.id, "status": "open", "reproduces": true}));
                 }
